@@ -691,10 +691,12 @@ def rec_model(ctx, tlc_results, thorough):
             z = [ln for ln in r.coverage_zero() if "Recursive" in ln]
             if z:
                 raise MachineryError(f"vacuous: actions of Recursive.tla never taken in family {fam}: {z}")
-        cs = r.prints("CASE")
-        for c in cs:
+        uniq = {}
+        for c in r.prints("CASE"):                  # TLC may evaluate the exporting constraint twice for a state
+            uniq.setdefault(json.dumps(c["W"], sort_keys=True), c)
+        for c in uniq.values():
             c["family"] = fam
-        cases += cs
+        cases += list(uniq.values())
     cases.sort(key=lambda c: json.dumps(c["W"], sort_keys=True))
     if len(cases) < 1500:
         raise MachineryError(f"Recursive exported only {len(cases)} worlds: vacuous")
@@ -877,17 +879,18 @@ def run(ctx):
         fi = ex.submit(tlc_job, ctx, "inh", "Recursive", f"Recursive_inherit_{tier}.cfg", 3 if not thorough else 5, 2400, thorough)
         fb.result()
         r_sel, r_disc, r_inh = fs.result(), fd.result(), fi.result()
-    for r in (r_sel, r_disc, r_inh):
+        r_deep = tlc_job(ctx, "deep", "Recursive", f"Recursive_deep_{tier}.cfg", 4, 2400, thorough)
+    for r in (r_sel, r_disc, r_inh, r_deep):
         ctx.cov["states"] += r.distinct
         ctx.cov["transitions"] += r.generated
     tick(ctx, "tlc_and_build", t0)
     t0 = time.time()
     sel_cases, decls = sel_model(ctx, r_sel)
-    rec_cases = rec_model(ctx, [("discovery", r_disc), ("inherit", r_inh)], thorough)
+    rec_cases = rec_model(ctx, [("discovery", r_disc), ("inherit", r_inh), ("deep", r_deep)], thorough)
     tick(ctx, "parse_exports", t0)
     # ---- 2. replay through the binary
-    sel_chosen = sel_choose(ctx, sel_cases, len(sel_cases) if thorough else 1400)
-    rec_chosen = rec_choose(ctx, rec_cases, 12000 if thorough else 600)
+    sel_chosen = sel_choose(ctx, sel_cases, len(sel_cases) if thorough else 2000)
+    rec_chosen = rec_choose(ctx, rec_cases, 12000 if thorough else 700)
     if ctx.replay:
         sel_chosen, rec_chosen = replay_filter(ctx, sel_cases, rec_cases)
     t0 = time.time()
@@ -989,7 +992,8 @@ def run(ctx):
         "excluded by build constraints may or may not count as sub-packages",
         "a sub-package excluded by its nearest recursive ancestor but admitted by a farther one may be absent or carry the "
         "settings of an admitting ancestor",
-        "small scope: trees of at most 3 (quick) / 4 (thorough) directories, at most 3 configured packages",
+        "small scope: trees of at most 4 (quick) / 5 (thorough) directories (every directory kind and exclusion placement "
+        "up to 3 / 4, recursion-only configurations at 4 / 5), at most 3 configured packages",
     ]
     return {"level": "model_checking", "exhaustive": len(rec_chosen) == len(rec_cases) and not ctx.replay}
 
